@@ -73,7 +73,7 @@ class FnItem:
         return 'fn{%s}' % self.path
 
 class ArcV:
-    __slots__ = ('cell',)
+    __slots__ = ('cell', 'strong')
     def __init__(self, cell):
         self.cell = cell
     def __repr__(self):
